@@ -34,7 +34,7 @@ ASSUMPTIONS = [
     "in-process driver validated against real `python -m superrec2.cli` subprocesses on the first cases of every shard",
     "TeX measurer replaced by the deterministic stub (no TeX engine in the image)",
 ]
-BUDGET = {"quick": 400, "thorough": 3300}
+BUDGET = {"quick": 900, "thorough": 3300}
 ALGOS = ("lca", "thl", "exh", "base_spfs", "ext_spfs", "base_uspfs", "superdtl")
 COST_OPTS = [[], ["--cost-dup", "2", "--cost-sloss", "0"], ["--cost-hgt", "float('inf')"],
              # costs whose optimum needs more than six significant digits / is not an integer
